@@ -191,8 +191,8 @@ func c20IdentAt(s string) string {
 
 type c20ScanStats struct {
 	files, testFiles, otherFiles, dirs int
-	funcs, methods, methodDirectives  int
-	directiveLines, gluedPrefix       int
+	funcs, methods, methodDirectives   int
+	directiveLines, gluedPrefix        int
 }
 
 // c20ScanFile returns (source symbol, function name) for every directive line
@@ -942,7 +942,7 @@ func TestVerifC20(t *testing.T) {
 	defer os.RemoveAll(base)
 
 	c20Trees, c20Expected, c20Lookalikes, c20MultiDirective := 0, 0, 0, 0
-	n := run.N(1500, 60000)
+	n := run.N(800, 40000)
 	run.Cases(n, func(c *vlib.Case) {
 		g := &c20Gen{r: c.R, decoys: map[string]string{}, catSeen: map[string]int{}}
 		tree := g.tree()
@@ -1110,12 +1110,12 @@ func TestVerifC20(t *testing.T) {
 		root := filepath.Join(base, "fixed2", "kernel")
 		defer os.RemoveAll(filepath.Dir(root))
 		files := map[string]string{
-			"main.go":              "package main\n\n//go:redirect-from runtime.rootfn\nfunc Root() {}\n",
-			"mm/vmm/map.go":        "package vmm\n\n// A does a.\n//go:nosplit\n//go:redirect-from runtime.a1\n//go:redirect-from runtime.a2\nfunc A() {}\n//go:redirect-from runtime.b\nfunc B() {}\n\n//go:redirect-from decoy.var\nvar V = 1\n\n//go:redirect-from runtime.c\nfunc C() {\n\t//go:redirect-from decoy.body\n}\n",
-			"mm/vmm/map_test.go":   "package vmm\n\n//go:redirect-from decoy.test\nfunc T() {}\n",
-			"a/b/c/d/e/deep.go":    "package e\n\n//go:redirect-from runtime.deep\nfunc Deep()\n",
-			"a/b/c/d/e/notes.txt":  "//go:redirect-from decoy.txt\nfunc Txt() {}\n",
-			"a/b/plain.go":         "package b\n\n//go:redirect-from decoy.detached\n\nfunc Plain() {}\n",
+			"main.go":             "package main\n\n//go:redirect-from runtime.rootfn\nfunc Root() {}\n",
+			"mm/vmm/map.go":       "package vmm\n\n// A does a.\n//go:nosplit\n//go:redirect-from runtime.a1\n//go:redirect-from runtime.a2\nfunc A() {}\n//go:redirect-from runtime.b\nfunc B() {}\n\n//go:redirect-from decoy.var\nvar V = 1\n\n//go:redirect-from runtime.c\nfunc C() {\n\t//go:redirect-from decoy.body\n}\n",
+			"mm/vmm/map_test.go":  "package vmm\n\n//go:redirect-from decoy.test\nfunc T() {}\n",
+			"a/b/c/d/e/deep.go":   "package e\n\n//go:redirect-from runtime.deep\nfunc Deep()\n",
+			"a/b/c/d/e/notes.txt": "//go:redirect-from decoy.txt\nfunc Txt() {}\n",
+			"a/b/plain.go":        "package b\n\n//go:redirect-from decoy.detached\n\nfunc Plain() {}\n",
 		}
 		names := make([]string, 0, len(files))
 		for k := range files {
